@@ -21,6 +21,9 @@ import (
 )
 
 type Engine struct {
+	baseShapes  map[string]Shape
+	baseNames   baselineNames
+	lostConsts  map[string]bool // init-time constants the baseline had and this tree no longer yields
 	fieldAlias map[string]string            // "pkg.T.old" -> "new": struct fields renamed since the baseline (matched by type)
 	localAlias map[string]map[string]string // function key -> old local / parameter / captured name -> new name
 	aliasUsed  map[string]bool              // function keys in which a heuristic alias was applied
@@ -100,10 +103,33 @@ func NewEngine(repo, verif string) (*Engine, error) {
 	if data, err := os.ReadFile(filepath.Join(verif, "baseline_shapes.json")); err == nil && os.Getenv("GOVC_NO_REBIND") == "" {
 		base := map[string]Shape{}
 		if json.Unmarshal(data, &base) == nil {
+			e.baseShapes = base
 			e.rebindContracts(base)
 			e.remapLoops(base)
 		}
 		e.computeAliases(verif)
+	}
+	for key, fc := range e.contracts.funcs {
+		mention := func(src string) bool { return strings.Contains(src, "clock(") }
+		for _, cl := range fc.Ensures {
+			fc.MentionsClock = fc.MentionsClock || mention(cl.Src)
+		}
+		for _, cl := range fc.Requires {
+			fc.MentionsClock = fc.MentionsClock || mention(cl.Src)
+		}
+		for _, tr := range fc.Traces {
+			fc.MentionsClock = fc.MentionsClock || mention(tr.Src)
+		}
+		for _, cls := range fc.LoopInv {
+			for _, cl := range cls {
+				fc.MentionsClock = fc.MentionsClock || mention(cl.Src)
+			}
+		}
+		for _, li := range e.contracts.lockInvs {
+			if mention(li.Src) && strings.Contains(key, "(*"+li.Struct[strings.LastIndex(li.Struct, ".")+1:]+")") {
+				fc.MentionsClock = true
+			}
+		}
 	}
 	e.computeEscapes()
 	if err := e.indexGuards(); err != nil {
@@ -1336,8 +1362,10 @@ func (e *Engine) loopLabel(fn *ssa.Function, ord int) int {
 // renamed). The resolution is heuristic: obligations that fail where it was used are undecided.
 
 type baselineNames struct {
-	Structs map[string][][2]string `json:"structs"`
-	Locals  map[string][][2]string `json:"locals"`
+	Structs    map[string][][2]string    `json:"structs"`
+	Locals     map[string][][2]string    `json:"locals"`
+	InitConsts []string                  `json:"init_consts"` // package-level variables whose init-time value the engine extracts
+	SafeCounts map[string]map[string]int `json:"safe_counts"` // function -> class of run-time check ("nil", "index", "panic", ...) -> how many the function has
 }
 
 func (e *Engine) orderedLocals(fn *ssa.Function) [][2]string {
@@ -1380,7 +1408,16 @@ func (e *Engine) orderedLocals(fn *ssa.Function) [][2]string {
 }
 
 func (e *Engine) currentNames() baselineNames {
-	bn := baselineNames{Structs: map[string][][2]string{}, Locals: map[string][][2]string{}}
+	bn := baselineNames{Structs: map[string][][2]string{}, Locals: map[string][][2]string{}, SafeCounts: map[string]map[string]int{}}
+	for k := range e.initConsts {
+		bn.InitConsts = append(bn.InitConsts, k)
+	}
+	sort.Strings(bn.InitConsts)
+	for k, fn := range e.fnByKey {
+		if e.isRepoFn(fn) && len(fn.Blocks) > 0 {
+			bn.SafeCounts[k] = safeCounts(fn)
+		}
+	}
 	for k, fn := range e.fnByKey {
 		if e.isRepoFn(fn) && len(fn.Blocks) > 0 {
 			bn.Locals[k] = e.orderedLocals(fn)
@@ -1453,6 +1490,13 @@ func (e *Engine) computeAliases(verif string) {
 	var base baselineNames
 	if json.Unmarshal(data, &base) != nil {
 		return
+	}
+	e.baseNames = base
+	e.lostConsts = map[string]bool{}
+	for _, k := range base.InitConsts {
+		if _, ok := e.initConsts[k]; !ok {
+			e.lostConsts[k] = true
+		}
 	}
 	cur := e.currentNames()
 	for tk, bf := range base.Structs {
@@ -1534,4 +1578,68 @@ func (e *Engine) fieldNameFor(owner types.Type, name string) string {
 		return n
 	}
 	return name
+}
+
+// safeCounts: how many run-time checks of each class a function's SSA contains (the safety obligations
+// the engine generates for it are one per such instruction, plus bounds per slice / index expression).
+func safeCounts(fn *ssa.Function) map[string]int {
+	m := map[string]int{}
+	for _, b := range fn.Blocks {
+		for _, in := range b.Instrs {
+			switch x := in.(type) {
+			case *ssa.Panic:
+				m["panic"]++
+			case *ssa.FieldAddr, *ssa.Field:
+				m["nil"]++
+			case *ssa.IndexAddr, *ssa.Index, *ssa.Lookup:
+				m["index"]++
+			case *ssa.Slice:
+				m["slice"]++
+			case *ssa.TypeAssert:
+				if !x.CommaOk {
+					m["assert"]++
+				}
+			case *ssa.UnOp:
+				if x.Op == token.MUL {
+					m["nil"]++
+				}
+			case *ssa.Store:
+				m["nil"]++
+			case *ssa.MapUpdate:
+				m["mapwrite"]++
+			case *ssa.Call:
+				m["call"]++
+			case *ssa.BinOp:
+				if x.Op == token.QUO || x.Op == token.REM {
+					m["div"]++
+				}
+			case *ssa.Convert:
+				m["conv"]++
+			case *ssa.Send:
+				m["send"]++
+			}
+		}
+	}
+	return m
+}
+
+// fnRefsLostConst: does fn read a package-level variable whose init-time value the baseline knew and
+// this tree no longer yields (its initialiser was rewritten)?
+func (e *Engine) fnRefsLostConst(fn *ssa.Function) string {
+	if fn == nil || len(e.lostConsts) == 0 {
+		return ""
+	}
+	for _, b := range fn.Blocks {
+		for _, in := range b.Instrs {
+			var ops []*ssa.Value
+			for _, op := range in.Operands(ops) {
+				if g, ok := (*op).(*ssa.Global); ok && g.Pkg != nil {
+					if k := g.Pkg.Pkg.Path() + "." + g.Name(); e.lostConsts[k] {
+						return k
+					}
+				}
+			}
+		}
+	}
+	return ""
 }
